@@ -375,3 +375,48 @@ func VerifC07Crash() {
 	vsymCover("crash-point")
 	verifRecover(w, initStore, initDB, p)
 }
+
+// ---- C18: login jail ----
+
+type verifAuthConn struct {
+	verifConnBase
+	ok bool
+}
+
+func (c *verifAuthConn) Authorize(ctx context.Context, username string, password []byte) bool { return c.ok }
+
+// VerifC18Jail: one step of Backend.getUserID from an arbitrary failure count: wrong credentials never yield a user
+// id, a success resets the counter, and the third consecutive failure enters the jail: it reports ErrLoginBlocked,
+// registers exactly one timer and leaves the wait group non-zero so that the next attempt blocks until the timer ran.
+func VerifC18Jail() {
+	u, _, _ := verifUser()
+	conn := &verifAuthConn{ok: vsymChoice("credentialsOK", 2) == 1}
+	u.connector = conn
+	b := &Backend{users: map[string]*user{"verif": u}, loginJailTime: 3600 * 1000000000, log: logrus.WithField("pkg", "gluon/backend")}
+	count := vsymInt32("loginErrorCount")
+	vsymAssume(count >= 0)
+	vsymAssume(count < maxLoginAttempts)
+	b.loginErrorCount = count
+	ctx := context.Background()
+	id, err := b.getUserID(ctx, "user", []byte("pass"))
+	if conn.ok {
+		vsymCover("login-ok")
+		vsymAssert(err == nil && id == "verif", "right credentials authenticate")
+		vsymAssert(b.loginErrorCount == 0, "a success resets the failure counter")
+		return
+	}
+	vsymAssert(err != nil && id == "", "wrong credentials never authenticate")
+	vsymAssert(b.loginErrorCount == count+1, "a failure is counted")
+	if count+1 == maxLoginAttempts {
+		vsymCover("jail-entered")
+		vsymAssert(errors.Is(err, ErrLoginBlocked), "the third consecutive failure reports the jail")
+		// the next attempt must not be answered before the jail timer has run: under the engine this call blocks
+		// (the path ends BLOCKED); reaching the assertion below means it was answered
+		conn.ok = true
+		_, _ = b.getUserID(ctx, "user", []byte("pass"))
+		vsymAssert(false, "an attempt after three failures is answered before the jail time has passed")
+	} else {
+		vsymCover("failure-counted")
+		vsymAssert(errors.Is(err, ErrNoSuchUser), "an ordinary failure reports no such user")
+	}
+}
